@@ -52,6 +52,7 @@ def run(ctx):
              "(finite-domain exploration over TrialState x TrialState)")
     _cas.cas_rule(ctx, "R04.1")
     _cas.cas_atomic_rule(ctx, "R04.1")
+    _cas.cas_dialect_rule(ctx, "R04.1")
 
     # ------------------------------------------------------------ R04.2 claim result checked
     ctx.rule("R04.2", "every caller that requests RUNNING branches on the returned boolean before the id escapes")
